@@ -48,7 +48,9 @@ ASSUMPTIONS = ["a region CFG's edges are the successors of each block's last ope
 JOB_TIMEOUT = {"quick": 900, "thorough": 3600}
 
 EXH_QUICK = 4  # exhaustive bound on blocks (ordered lists, length<=2) in both tiers
-CPU_GUARD_S = 20  # CPU seconds one DominanceInfo construction may take before it is declared non-terminating
+CPU_GUARD_S = 5  # CPU seconds one DominanceInfo construction may take before it is declared non-terminating (normal: <1 ms)
+PO_CPU_GUARD_S = 0.5  # same for one complete post-order traversal (normal: ~20 us); small because a runaway stack eats memory
+MAX_HANGS = 8  # after that many non-terminations in one shard the mechanism is no longer exercised there (counted)
 
 
 class Hang(Exception):
@@ -317,6 +319,9 @@ def run_case(cx: Ctx, succs, variant=0, order=None, wrap=False, cross_check=Fals
                                          "order": list(order) if order else None, "wrap": wrap}}
 
     # ---- dominance
+    if cx.counters.get("viol:dominance:construction-does-not-terminate", 0) >= MAX_HANGS:
+        cx.c("dominance_skipped_after_repeated_hangs")
+        return
     signal.setitimer(signal.ITIMER_VIRTUAL, CPU_GUARD_S)
     try:
         try:
@@ -378,6 +383,9 @@ def run_case(cx: Ctx, succs, variant=0, order=None, wrap=False, cross_check=Fals
 
     # ---- post-order
     limit = 4 * n + 8
+    if cx.counters.get("viol:postorder:does-not-terminate", 0) >= MAX_HANGS:
+        cx.c("postorder_skipped_after_repeated_hangs")
+        return
     signal.setitimer(signal.ITIMER_VIRTUAL, PO_CPU_GUARD_S)
     try:
         try:
